@@ -83,7 +83,7 @@ check("C17",
 check("C15",
       "TLC (MC_C15 over QSim): the simulation flow as a transition system - seed tree (one object stream per sample, one data stream per repetition), task pools at the four nested parallel levels with joblib's backends (processes copy at dispatch, threads share, deeper nesting sequential), loss objects with identity - explored exhaustively over all 16 worker configurations: the final result table equals the schedule-free table, every estimate is computed from its own repetition's data, repetitions / samples use different streams, pool widths respected, termination. Vacuity instances (shared loss objects on threads; integer seed restarted per repetition, QSimSingle) must be refuted. MC_C15_aux: exact depolarising noise on the catalogue ((1-p) ideal + p maximally mixed, equality constraints kept) and the decision table of the built-in physicality check. Binding: TLC-simulated schedules are replayed step by step through the real flow code by a controlled executor (one thread per task released in TLC's order, pickling where the model says process; loss-minimisation tasks split before algo.optimize) and must reproduce the serial result table and pass the configured n_jobs to the right level; real loky / threading runs at every level, repeated runs, re-estimation from stored data and an independent reconstruction of the seed tree must give the same table; single-setting entry point with integer / generator / setting seeds; noise rows and physicality-check rows replayed (fabricated results on either side of the thresholds); random-Lindbladian noise physical and a function of the stream. A flow configuration with data-dependent weights on data with zero counts makes the stored empirical distributions part of the compared table.",
       "Trusted: symbolic random values in QSim (bit-for-bit table comparison in the binding); joblib backend rule as observed with the installed joblib; OS schedules in real parallel runs are sampled, the controlled executor covers QSim's action granularity.",
-      "TLA+ spec (QSim task pools / seed tree, QSimSingle, QNoise, QPhysCheck) model-checked with TLC; TLC-simulated schedules replayed through the real flow by a controlled executor; real parallel runs compared with the specification's schedule-free table",
+      "TLA+ spec (QSim task pools / seed tree, QSimSingle, QNoise, QPhysCheck) model-checked with TLC; TLC-simulated schedules replayed through the real flow by a controlled executor; TLC trace validation (Trace_C15) of recorded real threaded runs; real parallel runs compared with the specification's schedule-free table",
       "DESIGN.md §4 C15")
 
 check("C07",
